@@ -270,6 +270,9 @@ def loop_handler(interp, st, env, it):
                 else:
                     memo = s2.ghost.setdefault("euclid", {})
                     key = (A._key(T.simp(d)) if T.is_sym(d) else A._key(d), A._key(a_))
+                    wq = A.find_quotient(T.simp(d), a_) if T.is_sym(d) and key not in memo else None
+                    if wq is not None:
+                        memo[key] = wq
                     if key in memo:
                         ct, r = memo[key]
                     elif not T.is_sym(d) and not T.is_sym(a_):
